@@ -338,6 +338,89 @@ def rule_glob_patterns(ck: Check, repo: Repo, rid: str = "R7") -> None:
     r.floor(1, "glob call sites", got=n)
 
 
+# ---------------------------------------------------------------------------------------------------------------
+# R12: the LICENSES/ scan reads no state that depends on the order of the scan
+SCAN_READ_EXCEPTIONS = {
+    ("_find_licenses", "identifier in license_files"):
+        "duplicate detection is symmetric: whichever of two files with one identifier is scanned second raises",
+    ("_find_licenses", "path.name in self.license_map"):
+        "handler for a name without usable suffix: a LicenseRef- name registered by an earlier entry leads to the duplicate error in either order",
+    ("_identifier_of_license", "path.stem in self.license_map"):
+        "a stem that is a LicenseRef- registered earlier yields the same identifier as the LicenseRef- test right below",
+}
+
+
+def rule_scan_loop_state(ck: Check, repo: Repo, rid: str = "R12") -> None:
+    """glob/os.walk enumerate in file-system order.  Inside such a loop a decision that reads a container the loop itself
+    fills sees a different container for a different order.  Each such read is either provably about keys the loop never
+    adds, or one of the reads confirmed (by reading the code) to have an order-symmetric outcome; any other is a violation."""
+    r = ck.rule(rid, "the LICENSES/ scan decides every entry independently of the entries scanned before it")
+    P = "reuse.project.Project"
+    q = f"{P}._find_licenses"
+    fn = repo.func(q)
+    ck.analysed_fn(q, f"{P}._identifier_of_license")
+    loops = [n for n in ast.walk(fn) if isinstance(n, ast.For) and re.search(r"iglob|glob\(|os\.walk|iterdir|scandir|rglob", ast.unparse(n.iter))]
+    if len(loops) != 1:
+        raise AnalysisError("_find_licenses: the file-system loop was not found")
+    loop = loops[0]
+    written: dict[str, list[ast.AST]] = {}
+    for x in ast.walk(loop):
+        if isinstance(x, (ast.Assign, ast.AugAssign)):
+            for t in (x.targets if isinstance(x, ast.Assign) else [x.target]):
+                if isinstance(t, ast.Subscript):
+                    written.setdefault(ast.unparse(t.value), []).append(x)
+        elif isinstance(x, ast.Call) and isinstance(x.func, ast.Attribute) and x.func.attr in ("add", "append", "update", "setdefault", "extend", "insert", "pop", "remove", "discard"):
+            written.setdefault(ast.unparse(x.func.value), []).append(x)
+    if not written:
+        raise AnalysisError("_find_licenses: the scan no longer records anything (anchor vanished)")
+
+    def guards(node: ast.AST, root: ast.AST) -> list[str]:
+        """Positive conjuncts that hold where node executes (enclosing if-bodies and earlier operands of its own `and`)."""
+        out: list[str] = []
+        par = {id(c): p for p in ast.walk(root) for c in ast.iter_child_nodes(p)}
+        cur = node
+        while id(cur) in par:
+            p = par[id(cur)]
+            if isinstance(p, ast.If) and any(cur is s for s in p.body):
+                t = p.test
+                out += [ast.unparse(v) for v in (t.values if isinstance(t, ast.BoolOp) and isinstance(t.op, ast.And) else [t])]
+            if isinstance(p, ast.BoolOp) and isinstance(p.op, ast.And):
+                out += [ast.unparse(v) for v in p.values if v is not cur]
+            cur = p
+        return out
+
+    only_lref = {}
+    for name, sites in written.items():
+        only_lref[name] = all(any(g.startswith("_LICENSEREF_PATTERN.match(") for g in guards(sx, fn)) for sx in sites)
+    scope = [(q, loop)]
+    for c in ast.walk(loop):
+        if isinstance(c, ast.Call) and isinstance(c.func, ast.Attribute) and isinstance(c.func.value, ast.Name) and c.func.value.id == "self" \
+                and repo.has_func(f"{P}.{c.func.attr}"):
+            scope.append((f"{P}.{c.func.attr}", repo.func(f"{P}.{c.func.attr}")))
+    n = 0
+    for fq, root in scope:
+        for x in ast.walk(root):
+            if not (isinstance(x, ast.Compare) and len(x.ops) == 1 and isinstance(x.ops[0], (ast.In, ast.NotIn))):
+                continue
+            cont = ast.unparse(x.comparators[0])
+            if cont not in written:
+                continue
+            n += 1
+            key = ast.unparse(x.left)
+            text = f"{key} in {cont}"
+            gs = guards(x, root)
+            stable = only_lref.get(cont) and any(g.replace(" ", "") == f"not_LICENSEREF_PATTERN.match({key})".replace(" ", "") for g in gs)
+            exc = SCAN_READ_EXCEPTIONS.get((fq.split(".")[-1], text))
+            r.instance(f"read:{fq.split('.')[-1]}:{text}", {"function": fq, "test": text, "keys_never_added_by_the_scan": bool(stable), "confirmed_symmetric": exc}, fq)
+            if stable or exc:
+                continue
+            r.violation(fq, f"`{text}` is decided on a container the scan is still filling",
+                        f"`{cont}` is updated inside the loop over {ast.unparse(loop.iter)[:40]}, whose order is the file system's: with"
+                        f" `LICENSES/LicenseRef-foo.bar` and `LicenseRef-foo.bar.txt` the outcome (two licences or a RuntimeError) depends"
+                        f" on which entry the scan meets first", repo.loc(x))
+    r.floor(3, "reads of scan-updated containers", got=n)
+
+
 def rule_toml_order(ck: Check, repo: Repo) -> None:
     from . import c04
     c04.rule_nesting_sort_only(ck, repo, "R3")
@@ -364,6 +447,7 @@ def run(ck: Check, repo: Repo) -> None:
     rule_sinks(ck, repo, cg, ot)
     rule_pool(ck, repo)
     rule_toml_order(ck, repo)
+    rule_scan_loop_state(ck, repo)
     r4 = ck.rule("R4", "identifiers derived by hashing take only root-relative inputs (clause of root-spelling independence)")
     from . import c18
     c18.spdx_id_inputs(ck, repo, r4)
